@@ -9,6 +9,7 @@ import (
 	"fmt"
 	"math"
 	"math/rand"
+	"runtime"
 	"strconv"
 	"testing"
 	"time"
@@ -504,13 +505,25 @@ func c20Payload(o c20Obs) []byte {
 }
 
 func c20Layer2(c c20Case, x *vkit.Ctx, cached, rej *int) bool {
+	// memberlist's timer goroutines draw a random stagger from the global
+	// math/rand when they start; they must all be gone before the next case's
+	// twin runs, so wait for the goroutine count to fall back to where it was
+	baseline := runtime.NumGoroutine()
 	nw := simnet.New(1)
 	n, err := node.New(nw, node.Opts{Name: "a", Quiet: true})
 	if err != nil {
 		x.Inconclusive("node could not be created: " + err.Error())
 		return false
 	}
-	defer n.Stop()
+	defer func() {
+		n.Stop()
+		for dl := time.Now().Add(2 * time.Second); runtime.NumGoroutine() > baseline && time.Now().Before(dl); {
+			time.Sleep(50 * time.Microsecond)
+		}
+		if runtime.NumGoroutine() > baseline {
+			x.Label("node-goroutines-lingered")
+		}
+	}()
 	pd := n.Serf.VerifPingDelegate()
 	for i, o := range c.Obs {
 		if o.Forget {
